@@ -295,6 +295,26 @@ class AffineEval:
             self.env[norm(s.target)] = self.env[key]
             self.run(s.body)
             return
+        if isinstance(s, ast.While) and isinstance(s.test, ast.Compare) \
+                and len(s.test.ops) == 1 and isinstance(s.test.left, ast.Name) \
+                and isinstance(s.test.ops[0], (ast.Lt, ast.NotEq)) \
+                and isinstance(s.test.comparators[0], ast.Call) \
+                and norm(s.test.comparators[0].func) == 'len' \
+                and '<iter>' in self.env:
+            # `while i < len(xs): x = xs[i]; i += 1; ...` is the for loop
+            # over xs: one symbolic pass with the element bound generically
+            counter = s.test.left.id
+            for b in s.body:
+                if isinstance(b, ast.AugAssign) and isinstance(b.target, ast.Name) \
+                        and b.target.id == counter:
+                    continue
+                if isinstance(b, ast.Assign) and isinstance(b.value, ast.Subscript) \
+                        and norm(b.value.slice) == counter \
+                        and isinstance(b.targets[0], ast.Name):
+                    self.env[b.targets[0].id] = self.env['<iter>']
+                    continue
+                self.stmt(b)
+            return
         raise NotAffine('statement %s' % norm(s)[:60])
 
 
